@@ -20,6 +20,7 @@ DEFAULTS = dict(
 PROFILES = {
     'core': dict(smi_conflict=0.7),
     'core_flat': dict(depth=(1, 1)),
+    'core_smi': dict(depth=(1, 2), sm_internal=1.0, smi_conflict=0.8, smi_rows=[2, 2, 3], scripts=True),
     'hier': dict(depth=(2, 3), regions=(1, 2), smi_conflict=0.7),
     'hier_sparse': dict(depth=(3, 3), regions=(1, 2), nevents=(6, 6), sparse_events=True, sub_initial=0.8, states_per_region=(2, 2),
                         row_weights=(0, 1, 1, 2, 2, 3)),
@@ -67,7 +68,7 @@ PROFILES = {
     'defer_act': dict(defer_action=0.7, deferral=1.0, scripts=True, depth=(1, 1), regions=(1, 3), completion=0.0, state_internal=0.0, sm_internal=0.0),
     'defer_nested': dict(deferral=1.0, nested_deferral=True, scripts=True, depth=(2, 2), regions=(1, 2), completion=0.0, state_internal=0.0,
                          sm_internal=0.0, row_budget=12),
-    'defer_nested_outer': dict(outer_rows_on_deferred=True, defer_action=0.5, deferral=1.0, nested_deferral=True, scripts=True, depth=(2, 2), regions=(1, 2), completion=0.0, state_internal=0.0,
+    'defer_nested_outer': dict(outer_rows_on_deferred=True, defer_action=0.8, deferral=1.0, nested_deferral=True, scripts=True, depth=(2, 2), regions=(1, 2), completion=0.0, state_internal=0.0,
                          sm_internal=0.0, row_budget=12),
     'throw': dict(scripts=True, depth=(1, 2), regions=(1, 2), completion=0.2, state_internal=0.2, sm_internal=0.0),
     'throw_after_action': dict(action_none=0.4, guard_none=0.4, scripts=True, depth=(1, 2), regions=(1, 2), completion=0.2, state_internal=0.2, sm_internal=0.0, policy='after_action'),
@@ -226,9 +227,10 @@ class Gen:
                              for _ in range(r.choice([1, 2, 2]))]
         elif r.random() < p['sm_internal']:
             m['internal'] = [dict(ev=r.choice(evs), guard=self.guard(), actions=self.iactions())
-                             for _ in range(r.choice([1, 1, 2]))]
-            if p.get('smi_conflict', 0) > 0 and len(m['internal']) == 2 and r.random() < p['smi_conflict']:
-                m['internal'][1]['ev'] = m['internal'][0]['ev']      # conflicting machine-level internal rows: priority by position
+                             for _ in range(r.choice(p.get('smi_rows') or [1, 1, 2]))]
+            if p.get('smi_conflict', 0) > 0 and len(m['internal']) >= 2 and r.random() < p['smi_conflict']:
+                for rw in m['internal'][1:]:
+                    rw['ev'] = m['internal'][0]['ev']      # conflicting machine-level internal rows: priority by position
         if p['completion'] > 0:
             self.add_completion(m)
         if (level > 1 and p['history'] > 0 and r.random() < p['history']) or (level == 1 and p.get('root_history', 0) > 0 and r.random() < p['root_history']):
@@ -627,6 +629,20 @@ class Gen:
                         if r.random() < self.p['defer_cond']:
                             st.setdefault('cond_defer', []).append([e, self.atom()])
             sp['features']['exclude_cfgs'] = [1, 2, 3, 4]
+        if self.p.get('outer_rows_on_deferred'):
+            # the enclosing machine has a row on the very event a substate defers through a Defer row (the deferral consumes
+            # the event: the outer row must not fire)
+            for mm, path in S.machines(sp):
+                for sname, st in mm['states'].items():
+                    if st['kind'] != 'sub':
+                        continue
+                    inner = sorted({rw['ev'] for rw in st['machine']['table'] if rw.get('actions') == 'defer'})
+                    reg = mm['regions'][S.region_of(mm, sname)]
+                    others = [x for x in reg if x != sname and mm['states'][x]['kind'] == 'simple']
+                    listed = st['machine'].get('as_state', {}).get('deferred') or []
+                    for e in inner:
+                        if others and e not in listed and len(mm['table']) < MAX_ROWS and not any(rw['src'] == sname and rw['ev'] == e for rw in mm['table']):
+                            mm['table'].append(dict(src=sname, ev=e, tgt=r.choice(others), guard=None, actions=self.actions_n(1)))
         if self.p.get('nested_deferral') and not self.p.get('outer_rows_on_deferred'):
             # submachines that contain deferring states: rows of enclosing levels on deferred types would contradict them
             for mm, path in S.machines(sp):
